@@ -342,7 +342,7 @@ class ExprMixin:
             return VStr(self.fresh_const("fmt", z3.StringSort()))
         if isinstance(op, (ast.BitOr, ast.BitAnd)) and isinstance(a, VBool) and isinstance(b, VBool):
             return VBool(z3.Or(a.term, b.term) if isinstance(op, ast.BitOr) else z3.And(a.term, b.term))
-        if isinstance(op, ast.BitOr) and isinstance(a, VPy) and isinstance(b, (VPy, VNone)):
+        if isinstance(op, ast.BitOr) and isinstance(a, (VPy, VFunc, VNone)) and isinstance(b, (VPy, VFunc, VNone)):
             return VPy(obj=("union", a, b))  # type union in annotations/isinstance
         h = self.world.binop_hook(self, op, a, b)
         if h is not None:
@@ -640,7 +640,7 @@ class ExprMixin:
             it = self.as_int_term(idx)
             i = self.norm_index(it, z3.Length(base.term))
             return VStr(z3.SubString(base.term, i, 1))
-        if isinstance(base, VPy):
+        if isinstance(base, VPy) or (isinstance(base, VFunc) and base.kind == "builtin"):
             return VPy(obj=("subscript", base, idx))  # typing generics
         h = self.world.getitem_hook(self, base, idx)
         if h is not None:
